@@ -180,6 +180,9 @@ def run(ctx) -> None:
     ctx.rule("C18.R6-writes-after-the-manifest", "a file written into <instance>/<folder> after the manifest was applied goes into a directory "
              "that this deployment created itself (os.makedirs without exist_ok) or whose real path was tested to be beneath the "
              "instance directory: the manifest may have made that folder a link")
+    ctx.rule("C18.R7-link-roots-mirror-tarfile", "the containment test of a link member resolves its linkname against the directory tarfile will "
+             "resolve it against: the member's own directory for a symbolic link, the EXTRACTION ROOT for a hard link - a hard link 'd/h' -> "
+             "'../victim.txt' vetted against d/ looks harmless while tarfile links to <root>/../victim.txt")
     ctx.rule("C18.R4-error-type", "offending inputs are rejected with DataReferenceCouldNotStageError / PackageCreateError (or a manifest syntax error)")
     ctx.assume("tarfile/shutil/os semantics are as documented; links inside the destination are in scope only as far as the "
                "containment test must resolve them (realpath) - who created them is not analysed")
@@ -290,6 +293,53 @@ def run(ctx) -> None:
                    "member names are not tested against the archive's own links" if not name_ok else
                    "link targets are not tested against the archive's own links"),
                construct=short(call, 40) + " <- archive's own links")
+
+    # ---------------- R7: what the linkname is joined to ---------------------------------------------
+    def kind_of_test(t: ast.AST) -> Optional[str]:
+        return "sym" if isinstance(t, ast.Call) and last_attr(t) == "issym" else "lnk" if isinstance(t, ast.Call) and last_attr(t) == "islnk" else None
+
+    def is_member_dir(e: ast.AST) -> bool:
+        return isinstance(e, ast.Call) and call_name(e) == "os.path.dirname"
+
+    def base_for(e: ast.AST, kind: str, depth: int = 0) -> Optional[str]:
+        """'dir' (the member's directory) / 'root' (anything else: the extraction root) that e denotes for a link of this kind"""
+        if isinstance(e, ast.IfExp):
+            k = kind_of_test(e.test)
+            if k is not None:
+                return base_for(e.body if k == kind else e.orelse, kind, depth + 1)
+            return None
+        if isinstance(e, ast.Name) and depth < 4:
+            vals = local_defs(sr, e.id)
+            got = {base_for(v, kind, depth + 1) for v in vals}
+            return got.pop() if len(got) == 1 else None
+        return "dir" if is_member_dir(e) else "root"
+    joins = [c for c in source.calls_in(sr, include_nested=False) if call_name(c) == "os.path.join" and len(c.args) == 2
+             and isinstance(c.args[1], ast.Attribute) and c.args[1].attr == "linkname"
+             and any(isinstance(p_, ast.Call) and call_name(p_) == "os.path.realpath" for p_ in source.ancestors(c))]
+    ctx.floor("C18.R7-link-roots-mirror-tarfile", len(joins), 1, "containment tests of link targets in StageReference (join(<base>, <member>.linkname))")
+    for jn in joins:
+        # which kinds of link reach this statement: the tests of the enclosing ifs
+        kinds: Set[str] = set()
+        for anc in source.ancestors(jn):
+            if isinstance(anc, ast.If):
+                for x in ast.walk(anc.test):
+                    k = kind_of_test(x)
+                    if k:
+                        kinds.add(k)
+        kinds = kinds or {"sym", "lnk"}
+        for k in sorted(kinds):
+            want = "dir" if k == "sym" else "root"
+            got = base_for(jn.args[0], k)
+            ok = got == want
+            ctx.ob("C18.R7-link-roots-mirror-tarfile", jn, ok,
+                   "the target of a %s is resolved against %s, as tarfile does" % ("symbolic link" if k == "sym" else "hard link",
+                                                                                  "the member's directory" if want == "dir" else "the extraction root") if ok else
+                   "the containment test resolves the target of a %s against %s, tarfile resolves it against %s: a member 'd/h' with linkname "
+                   "'../victim.txt' passes the test as <workdir>/victim.txt while extraction links <workdir>/../victim.txt - a later regular "
+                   "member of the same name is then written through the shared inode, outside the working directory" % (
+                       "hard link" if k == "lnk" else "symbolic link", "the member's directory" if got == "dir" else "the extraction root" if got == "root" else "an undetermined base",
+                       "the extraction root" if k == "lnk" else "the member's directory"),
+                   construct="join(<base>, linkname) <- base for a %s" % ("hard link" if k == "lnk" else "symbolic link"))
 
     # ---------------- R2 -------------------------------------------------------------------------------
     sinks = match.nodes_calling(cfg, lambda c: call_name(c) in ("shutil.copytree", "shutil.copy", "shutil.copy2", "shutil.copyfile", "os.symlink", "os.link"))
